@@ -27,7 +27,8 @@ theorem Res.of_eff_incr {s s1 : Sess} {n : Int} {W q : List OutMsg} (h : Eff s s
 /-- a Logon as an engine with configuration `cfg` composes it -/
 def IsLogon (cfg : Cfg) (m : OutMsg) : Prop := m.kind = "A" ∧ (cfg.bs = 5 → cfg.applVer ≠ "" → m.f.has 1137 = true)
 
-theorem isLogon_of (x : Sess) (m : OutMsg) (hk : m.kind = "A") (hf : m.f = (logonMsg x false).f) : IsLogon x.cfg m := by
+/-- header bookkeeping (number, tag 369, reply marker) does not matter: any message with the kind and fields of `logonMsg` -/
+theorem isLogon_of (x : Sess) (mL : OutMsg) (hk : mL.kind = "A") (hf : mL.f = (logonMsg x false).f) : IsLogon x.cfg mL := by
   refine ⟨hk, fun _ hv => ?_⟩
   have : x.cfg.applVer.isEmpty = false := (isEmpty_false_iff _).2 hv
   rw [hf]
@@ -54,11 +55,12 @@ theorem eff_logonReply (s : Sess) (im : InMsg) (hp : s.cfg.persist = true) (ho :
     have hxp : x.cfg.persist = true := by rw [hX.fr.cfg]; exact hp
     have hxo : x.out = true := by rw [hX.fr.out]; exact ho
     have h2 := eff_dropAndSend x ((logonMsg x false).inReplyTo im) ((outOK_logon x).re im) hxp hxo
+    simp only [Bool.false_and, Bool.false_eq_true, if_false]
     refine ⟨numbered x ((logonMsg x false).inReplyTo im), ?_, ?_, ?_⟩
     · have := isLogon_of x (numbered x ((logonMsg x false).inReplyTo im)) rfl rfl
       rw [hX.fr.cfg] at this; exact this
     · show x.store.sender = _; rw [hX.snd]; omega
-    · have h3 : Eff s (sendLogonRe x false im) (0 + 1) ([] ++ [numbered x ((logonMsg x false).inReplyTo im)]) [] := hX.trans h2
+    · have h3 : Eff s _ (0 + 1) ([] ++ [numbered x ((logonMsg x false).inReplyTo im)]) [] := hX.trans h2
       rw [show (0 : Int) + 1 = 1 from rfl, List.nil_append] at h3
       exact h3
   · left; exact ⟨rfl, by simp⟩
@@ -167,8 +169,8 @@ theorem res_logonFix {c : Ctx} (hc : CtxOK c) {s : Sess} (hs : s.cfg = c.cfg) {m
     (hge : s.store.target ≤ m.seq) :
     ∃ n0 W q0, LogonRole s n0 W q0 ∧
       (m.seq = s.store.target → Res s (fixMsgInCore s (toIn c.pcfg m)) n0 W q0 (s.store.target + 1) .inSession) ∧
-      (s.store.target < m.seq → ∃ rr, rr.kind = "2" ∧ rr.f = (rrOut s.cfg s.store.target (m.seq - 1)).f ∧ rr.seq = s.store.sender + n0 ∧
-          Res s (fixMsgInCore s (toIn c.pcfg m)) (n0 + 1) W (q0 ++ [rr]) s.store.target
+      (s.store.target < m.seq → Res s (fixMsgInCore s (toIn c.pcfg m)) (n0 + 1) W
+          (q0 ++ [{ stamp s (rrOut s.cfg s.store.target (m.seq - 1)) with seq := s.store.sender + n0 }]) s.store.target
           (.resend [] (rrCur s.cfg s.store.target (m.seq - 1)) (m.seq - 1))) := by
   obtain ⟨s1, n0, W, q0, hrole, e1, hh⟩ := handleLogon_pool hc hs hw hlog hv ho hge
   refine ⟨n0, W, q0, hrole, ?_, ?_⟩
@@ -193,12 +195,14 @@ theorem res_logonFix {c : Ctx} (hc : CtxOK c) {s : Sess} (hs : s.cfg = c.cfg) {m
     rw [e1.fr.cfg] at e2 hfx
     rw [hfx]
     have e3 := e1.trans e2
-    refine ⟨numbered s1 (rrOut s.cfg s.store.target (m.seq - 1)).asNew, rfl, rfl, (show s1.store.sender = _ from e1.snd), ?_⟩
     refine ⟨e3.fr, e3.tgt, e3.snd, ?_, ?_, rfl, e3.grow⟩
     · show wl (sendInReplyTo s1 _) = _
       rw [e3.w]; simp
     · show (sendInReplyTo s1 _).toSend = _
       rw [e3.q, e1.q]
+      have hst : stamp s1 (rrOut s.cfg s.store.target (m.seq - 1)).asNew = stamp s (rrOut s.cfg s.store.target (m.seq - 1)) :=
+        stamp_congr s s1 _ e1.fr.cfg e1.tgt
+      simp only [numbered, e1.snd, hst]
 
 theorem wl_wrote (s : Sess) (ms : List OutMsg) : wl (s.wrote ms) = wl s ++ ms := by
   simp only [wl, Sess.wrote, List.reverse_append, List.reverse_reverse, wiresOf_append]
@@ -227,9 +231,9 @@ theorem eff_resendMessages (s : Sess) (b e : Int) (hl : s.st.loggedOn = true) (h
 theorem res_resendRequest {c : Ctx} (hc : CtxOK c) {s : Sess} (hs : s.cfg = c.cfg) {m : OutMsg} (hw : Wire c.P m)
     (hk2 : m.kind = "2") (b e : Int) (h7 : m.f.get? 7 = some (toString b)) (h16 : m.f.get? 16 = some (toString e))
     (hb64 : inInt64 b) (he64 : inInt64 e) (hl : s.st.loggedOn = true) (ho : s.out = true) (hge : s.store.target ≤ m.seq) :
-    ∃ l W q, ((replyPlanR l true s.store b (clipEnd s.cfg s.store.sender e) = [] ∧ W = [] ∧ q = s.toSend) ∨
-            (replyPlanR l true s.store b (clipEnd s.cfg s.store.sender e) ≠ [] ∧
-              W = s.toSend ++ replyPlanR l true s.store b (clipEnd s.cfg s.store.sender e) ∧ q = [])) ∧
+    ∃ W q, ((replyPlanR (replyLastOf s (toIn c.pcfg m)) true s.store b (clipEnd s.cfg s.store.sender e) = [] ∧ W = [] ∧ q = s.toSend) ∨
+            (replyPlanR (replyLastOf s (toIn c.pcfg m)) true s.store b (clipEnd s.cfg s.store.sender e) ≠ [] ∧
+              W = s.toSend ++ replyPlanR (replyLastOf s (toIn c.pcfg m)) true s.store b (clipEnd s.cfg s.store.sender e) ∧ q = [])) ∧
       Res s (handleResendRequest s (toIn c.pcfg m)) 0 W q (if m.seq = s.store.target then s.store.target + 1 else s.store.target) .inSession := by
   have ha : isAdminKind m.kind = true := by rw [hk2]; decide
   have hb : getInt (toIn c.pcfg m) 7 = .val b := getInt_of_get? _ _ _ (by rw [toIn_get_body _ _ 7 (by decide)]; exact h7) hb64
@@ -238,20 +242,23 @@ theorem res_resendRequest {c : Ctx} (hc : CtxOK c) {s : Sess} (hs : s.cfg = c.cf
     rw [verifySelect_pool hc hs hw]; simp
   rw [C03_handleResendRequest s _ _ b e hv hb he]
   simp only []
-  generalize hs1 : s.emit (cbObs s (toIn c.pcfg m)) = s1
+  generalize hs1 : (s.emit (cbObs s (toIn c.pcfg m))).setReplyLast (replyLastOf (s.emit (cbObs s (toIn c.pcfg m))) (toIn c.pcfg m)) = s1
+  have hrl1 : s1.replyLast = replyLastOf s (toIn c.pcfg m) := by rw [← hs1]; rfl
+  have hcl : clipEnd (s.emit (cbObs s (toIn c.pcfg m))).cfg (s.emit (cbObs s (toIn c.pcfg m))).store.sender e
+      = clipEnd s.cfg s.store.sender e := rfl
+  rw [hcl]
   have e1 : Eff s s1 0 [] s.toSend := by
-    rw [← hs1]; exact Eff.emit s _ (by intro x; rw [cbObs_toIn, if_pos ha]; simp)
+    rw [← hs1]
+    have a1 := Eff.emit s (cbObs s (toIn c.pcfg m)) (by intro x; rw [cbObs_toIn, if_pos ha]; simp)
+    have a2 : Eff (s.emit (cbObs s (toIn c.pcfg m))) ((s.emit (cbObs s (toIn c.pcfg m))).setReplyLast (replyLastOf (s.emit (cbObs s (toIn c.pcfg m))) (toIn c.pcfg m))) 0 [] (s.emit (cbObs s (toIn c.pcfg m))).toSend :=
+      Eff.of_eq ⟨rfl, rfl, rfl, rfl, rfl⟩ rfl rfl rfl
+    have := a1.trans a2
+    exact ⟨this.fr, this.tgt, by rw [this.snd]; omega, by rw [this.w]; simp, this.q, this.grow⟩
   have hl1 : s1.st.loggedOn = true := by rw [e1.fr.st]; exact hl
   have ho1 : s1.out = true := by rw [e1.fr.out]; exact ho
   have hp1 : s1.cfg.persist = true := by rw [e1.fr.cfg, hs]; exact hc.persist
   have hst1 : s1.store = s.store := by rw [← hs1]; rfl
   have hq1 : s1.toSend = s.toSend := e1.q
-  rw [e1.fr.cfg, hst1]
-  generalize hl0 : replyLastOf s1 (toIn c.pcfg m) = l0
-  have e1' : Eff s (s1.setReplyLast l0) 0 [] s.toSend := by
-    have := e1.trans (Eff.of_eq (s := s1) (s' := s1.setReplyLast l0) ⟨rfl, rfl, rfl, rfl, rfl⟩ rfl rfl rfl)
-    rw [e1.q] at this
-    simpa using this
   have key : ∀ s2 : Sess, ∀ W q, Eff s s2 0 W q →
       Res s (if (checkTooLow s2 (toIn c.pcfg m)).isSome = true then (s2, SState.inSession)
              else if (checkTooHigh s2 (toIn c.pcfg m)).isSome = true then (s2, SState.inSession)
@@ -268,18 +275,15 @@ theorem res_resendRequest {c : Ctx} (hc : CtxOK c) {s : Sess} (hs : s.cfg = c.cf
       have h4 : ¬ s.store.target > s.store.target := by omega
       simp only [heq, h3, h4, if_true, if_false, Option.isSome_none, Bool.false_eq_true]
       exact Res.of_eff_incr e2 SState.inSession
-  have hrl : (s1.setReplyLast l0).replyLast = l0 := rfl
-  have hst2 : (s1.setReplyLast l0).store = s.store := hst1
-  have hq2 : (s1.setReplyLast l0).toSend = s.toSend := hq1
-  rcases eff_resendMessages (s1.setReplyLast l0) b (clipEnd s.cfg s.store.sender e) hl1 ho1 hp1 with ⟨hpl, hr⟩ | ⟨hpl, hr⟩
-  · rw [hst2, hrl] at hpl
+  rcases eff_resendMessages s1 b (clipEnd s.cfg s.store.sender e) hl1 ho1 hp1 with ⟨hpl, hr⟩ | ⟨hpl, hr⟩
+  · rw [hst1, hrl1] at hpl
     rw [hr]
-    exact ⟨l0, [], s.toSend, Or.inl ⟨hpl, rfl, rfl⟩, key _ [] s.toSend e1'⟩
-  · rw [hst2, hrl] at hpl hr
-    rw [hq2] at hr
-    have e2 := e1'.trans hr
+    exact ⟨[], s.toSend, Or.inl ⟨hpl, rfl, rfl⟩, key s1 [] s.toSend e1⟩
+  · rw [hst1, hrl1] at hpl hr
+    rw [hq1] at hr
+    have e2 := e1.trans hr
     simp only [Int.add_zero, List.nil_append] at e2
-    exact ⟨l0, _, [], Or.inr ⟨hpl, rfl, rfl⟩, key _ _ [] e2⟩
+    exact ⟨_, [], Or.inr ⟨hpl, rfl, rfl⟩, key _ _ [] e2⟩
 
 /-- a gap fill of the peer numbered exactly as expected: the expected number jumps to its NewSeqNo, nothing is sent -/
 theorem res_gapFill {c : Ctx} (hc : CtxOK c) {s : Sess} (hs : s.cfg = c.cfg) (b e : Int) (l : Option Int) (hw : Wire c.P (gapFillL b e l))
@@ -291,15 +295,14 @@ theorem res_gapFill {c : Ctx} (hc : CtxOK c) {s : Sess} (hs : s.cfg = c.cfg) (b 
     have := congrArg OutMsg.f heq
     simp only [gapFillL, gapFill, List.cons.injEq, Prod.mk.injEq, true_and, and_true] at this
     exact (toString_int_inj this).symm
-  have hl' : l' = l := by have := congrArg OutMsg.last heq; exact this.symm
-  subst hb' he' hl'
-  have h123 : getBool (toIn c.pcfg (gapFillL b' e' l')) 123 = .val true :=
+  subst hb' he'
+  have h123 : getBool (toIn c.pcfg (gapFillL b' e' l)) 123 = .val true :=
     getBool_Y _ _ (by rw [toIn_get_body _ _ 123 (by decide)]; simp [gapFillL, gapFill, get?_cons])
   have hbound := hc.bound
-  have h36 : getInt (toIn c.pcfg (gapFillL b' e' l')) 36 = .val e' :=
+  have h36 : getInt (toIn c.pcfg (gapFillL b' e' l)) 36 = .val e' :=
     getInt_of_get? _ _ _ (by rw [toIn_get_body _ _ 36 (by decide)]; simp [gapFillL, gapFill, get?_cons])
       (by unfold inInt64; unfold maxSeq at hbound; omega)
-  have hfx : inSessionFixMsgIn s (toIn c.pcfg (gapFillL b' e' l')) = handleSequenceReset s (toIn c.pcfg (gapFillL b' e' l')) := by
+  have hfx : inSessionFixMsgIn s (toIn c.pcfg (gapFillL b' e' l)) = handleSequenceReset s (toIn c.pcfg (gapFillL b' e' l)) := by
     unfold inSessionFixMsgIn
     simp only [toIn_kind, gapFillL, gapFill]
     simp
@@ -308,14 +311,14 @@ theorem res_gapFill {c : Ctx} (hc : CtxOK c) {s : Sess} (hs : s.cfg = c.cfg) (b 
   rw [h123]
   simp only []
   rw [verifySelect_pool hc hs hw]
-  have hseq : (gapFillL b' e' l').seq = b' := rfl
+  have hseq : (gapFillL b' e' l).seq = b' := rfl
   have h1 : ¬ b' < s.store.target := by omega
   have h2 : ¬ s.store.target < b' := by omega
   simp only [true_and, if_true, hseq, h1, h2, if_false]
   rw [h36]
   simp only []
-  have ht : (s.emit (cbObs s (toIn c.pcfg (gapFillL b' e' l')))).store.target = s.store.target := rfl
-  have hgt : e' > (s.emit (cbObs s (toIn c.pcfg (gapFillL b' e' l')))).store.target := by rw [ht]; omega
+  have ht : (s.emit (cbObs s (toIn c.pcfg (gapFillL b' e' l)))).store.target = s.store.target := rfl
+  have hgt : e' > (s.emit (cbObs s (toIn c.pcfg (gapFillL b' e' l)))).store.target := by rw [ht]; omega
   rw [if_pos hgt]
   refine ⟨⟨rfl, rfl, rfl, rfl, rfl⟩, rfl, by show s.store.sender = _; omega, ?_, rfl, rfl, Grow.target (Grow.refl true s.store) e'⟩
   show wl (((s.emit _).setTarget e').emit _) = _
